@@ -50,6 +50,13 @@ def Cursor.pNode (c : Cursor) (name : Name) : Cursor × Option Node :=
   let r := seek name (c.nodes.drop c.idx) c.idx
   ({ c with idx := r.1 }, r.2)
 
+/-- Time stamps (`Meta.mtime`, `Meta.ctime` : `Option Int`) stand for the FULL `jiff::Timestamp` of the node — second and
+nanosecond — and `is_parent` compares them with `==` on `Option<Timestamp>`, i.e. to the nanosecond (`metaMatch`, `matchCtime`
+below compare the integers).  The correspondence driver / harness encode a stamp as this one integer (`harness/src/c11.rs`
+`stamp`); for seconds below `2^32` and nanoseconds below `10^9 < 2^32` the encoding is injective
+(`Props/C11.lean stamp_injective`). -/
+def stamp (secs nanos : Nat) : Int := (secs : Int) + (nanos : Int) * 4294967296
+
 /-- `match_ctime` of `is_parent`: `ignore_ctime || p.ctime.zip(ctime).is_none_or(|(x, y)| x == y)`. -/
 def matchCtime (o : Opts) (p n : Meta) : Bool :=
   o.ignoreCtime ||
